@@ -113,6 +113,12 @@ class Prop(PropBase):
                     j = rng.choice([udp_frame(w[:60], base + 999, vlan=bool(vlan)), udp_frame(w[:60], port_of(k), vlan=bool(vlan), ethertype=0x0806),
                                     udp_frame(w[:60], port_of(k), vlan=bool(vlan), proto=6), udp_frame(w[:40], port_of(k), vlan=not bool(vlan))])
                     s.lines.append(f'F 0 {len(j)} {j.hex()}')
+            if gi % 2 == 1 or repeat:
+                # a capture whose writer was killed: one more MSOP record follows, but the file ends in the middle of it. It cannot
+                # be read, contributes nothing, and the end of the file is handled as usual
+                last_m = [w for k, w in wired if k == 'm'][-1]
+                f = udp_frame(last_m, msop, vlan=bool(vlan)) if not l.jumbo else udp_frame(last_m[:1000], msop, vlan=bool(vlan))
+                s.lines.append(f'F 0 {len(f)} {f.hex()}'); s.lines.append('FT 0')
             s.lines.append('GO 0')
             scn_sel.append(s.text(residual=()))
             # sockets: select build always, epoll build for every other group
